@@ -32,8 +32,9 @@ type c02Env struct {
 	params string // "" = absent
 	notif  bool   // sent without id
 	// expected outcome for a call: "result", or a JSON-RPC error code
-	want int64 // 0 = result
-	gate bool  // the tool handler parks until released
+	want     int64 // 0 = result
+	gate     bool  // the tool handler parks until released
+	anyClass bool  // exactly one response is due, result or error (a call the peer cancelled while in flight)
 	// optional: the request may be refused without a response bearing its id (a duplicate of an in-flight id)
 	optional bool
 }
@@ -416,6 +417,7 @@ func c02RunCase(c c02Case) (obs, sig, msg string) {
 	}
 	want := map[string][]string{}
 	optional := map[string]int{}
+	anyIDs := map[string]bool{}
 	var classes []string
 	for _, m := range c.sent {
 		if m.env.notif {
@@ -437,6 +439,12 @@ func c02RunCase(c c02Case) (obs, sig, msg string) {
 			if m.env.gate && len(started) > 0 {
 				return fail("rejected-post-dispatched", "the POST was rejected with %d but a handler of it ran (%v)", st, started)
 			}
+		case m.env.anyClass:
+			if len(got[m.id]) != 1 {
+				return fail("cancelled-call-answered-"+fmt.Sprint(len(got[m.id]))+"-times", "call id %s, cancelled by the peer while in flight, received %d responses (%v), want exactly one", m.id, len(got[m.id]), got[m.id])
+			}
+			anyIDs[m.id] = true
+			classes = append(classes, "cancelled:"+got[m.id][0])
 		default:
 			want[m.id] = append(want[m.id], cls)
 			classes = append(classes, cls)
@@ -471,7 +479,7 @@ func c02RunCase(c c02Case) (obs, sig, msg string) {
 		}
 	}
 	for id, g := range got {
-		if len(want[id]) == 0 && len(g) > optional[id] && id != "null" && id != "" {
+		if len(want[id]) == 0 && len(g) > optional[id] && id != "null" && id != "" && !anyIDs[id] {
 			return fail("response-with-foreign-id", "response(s) %v carry id %s which no pending request has", g, id)
 		}
 	}
@@ -636,6 +644,41 @@ func c02Cases(quick bool) []c02Case {
 		dup := c02Env{name: "dup-ping", method: "ping", want: -32600, optional: true}
 		cases = append(cases, c02Case{driver: drv, version: "2025-06-18", units: []string{u1, c02Line(dup, "5")}, sent: []c02Sent{s1, {id: "5", env: dup, unit: 1}}, release: []int{1},
 			desc: drv + " duplicate in-flight id 5"})
+	}
+	// (E) the peer cancels an in-flight call: the call is still answered exactly once, and the other
+	// members of its batch are answered too
+	for _, drv := range []string{"pipe", "http-stateful-sse", "http-stateful-json"} {
+		gated := func(k int, cancelled bool) c02Env {
+			return c02Env{name: "gated", method: "tools/call", params: fmt.Sprintf(`{"name":"g","arguments":{"k":"%d"}}`, k), gate: true, anyClass: cancelled}
+		}
+		cancel := func(id string) (string, c02Env) {
+			e := c02Env{name: "cancel", method: "notifications/cancelled", params: `{"requestId":` + id + `,"reason":"changed my mind"}`, notif: true}
+			return c02Line(e, ""), e
+		}
+		call := c02Env{name: "call", method: "tools/call", params: `{"name":"t","arguments":{}}`}
+		for _, v := range []string{"2025-03-26", "2025-06-18"} {
+			cu, ce := cancel("1")
+			cases = append(cases, c02Case{driver: drv, version: v, release: []int{1},
+				units: []string{c02Line(gated(1, true), "1"), cu},
+				sent:  []c02Sent{{id: "1", env: gated(1, true), unit: 0}, {env: ce, unit: 1}},
+				desc:  fmt.Sprintf("%s %s gated call 1 ; cancelled(1) ; release", drv, v)})
+			// a second call after the cancellation, answered before the cancelled one is released
+			cases = append(cases, c02Case{driver: drv, version: v, release: []int{1},
+				units: []string{c02Line(gated(1, true), "1"), cu, c02Line(call, "2")},
+				sent:  []c02Sent{{id: "1", env: gated(1, true), unit: 0}, {env: ce, unit: 1}, {id: "2", env: call, unit: 2}},
+				desc:  fmt.Sprintf("%s %s gated call 1 ; cancelled(1) ; call 2 ; release", drv, v)})
+		}
+		cu, ce := cancel("1")
+		cases = append(cases, c02Case{driver: drv, version: "2025-03-26", release: []int{1},
+			units: []string{"[" + c02Line(gated(1, true), "1") + "," + c02Line(call, "2") + "]", cu},
+			sent:  []c02Sent{{id: "1", env: gated(1, true), unit: 0}, {id: "2", env: call, unit: 0}, {env: ce, unit: 1}},
+			desc:  drv + " 2025-03-26 batch [gated 1, call 2] ; cancelled(1) ; release"})
+		for _, perm := range c02Perms([]int{1, 2}) {
+			cases = append(cases, c02Case{driver: drv, version: "2025-03-26", release: perm,
+				units: []string{"[" + c02Line(gated(1, true), "1") + "," + c02Line(gated(2, false), "2") + "]", cu},
+				sent:  []c02Sent{{id: "1", env: gated(1, true), unit: 0}, {id: "2", env: gated(2, false), unit: 0}, {env: ce, unit: 1}},
+				desc:  fmt.Sprintf("%s 2025-03-26 batch [gated 1, gated 2] ; cancelled(1) ; release=%v", drv, perm)})
+		}
 	}
 	return cases
 }
